@@ -502,7 +502,9 @@ def check_C16(pid, tier, seed, verdict):
                "Socks5.tla (version class x method count 0/1/2/255 x no-auth offered x truncation point of the greeting x request "
                "version x command CONNECT/BIND/UDP/unknown x address type v4/name/v6/unknown x empty name x accepting/refusing "
                "target x truncation point of the request x segmentation whole/byte-at-a-time/per field): ALL relevant cases are "
-               "enumerated by TLC and each is run (thorough: twice with different concrete bytes); plus one sibling-tunnel check "
+               "enumerated by TLC and each is run (thorough: twice with different concrete bytes); a non-empty domain name is "
+               "'localhost' (really resolved) or a name of 1, 2, 63, 64, 253, 254 or 255 bytes with a pre-seeded resolver entry "
+               "(the whole range of the one-byte length field, end to end to the dial); plus one sibling-tunnel check "
                "per 40 cases; non-trivial = connections whose observation was judged by Accept", V.sample_descrs(run["descr"]),
                True, dict(behaviours_generated=len(g["scenarios"]), trace_events=res["lines"], event_counts=cnt, exhaustive_cases=True))
     cov["exhaustive"] = False
